@@ -482,6 +482,35 @@ class Gen:
                     out.append(c)
         return out
 
+    def lifecycle_cases(self, reps=6):
+        """process history: consecutive tasks, each with its OWN symbol set (built, exported in the four
+        formats, destroyed), that use different primitives of the same shape over the same terminals, so
+        that the allocator hands the new function object the address of a dead one.  Run in one harness
+        process, in this order, with address reuse enabled (no ASan quarantine / unsanitised build)."""
+        out = []
+        r = self.rng
+        groups = {}
+        for x in self.cat.functions("R", EXEC_FUNS):
+            if x[0] != "real_length" and set(x[1]) == {"R"}:
+                groups.setdefault(len(x[3]), []).append(x)
+        for _ in range(reps):
+            for n, fs in sorted(groups.items()):
+                if len(fs) < 2:
+                    continue
+                seq = r.sample(fs, r.randint(min(4, len(fs)), min(8, len(fs))))
+                for p in seq:
+                    c = Case("lifecycle")
+                    cc = c.cat("R")
+                    genes = [[c.sym_index(self.function_sym(c, p)), None, []]]
+                    for j in range(n):
+                        genes.append([c.sym_index({"k": "V", "name": b"X%d" % (j + 1), "cat": cc}), None, []])
+                        genes[0][2].append(len(genes) - 1)
+                    c.genes = [tuple(g) for g in genes]
+                    c.kinds = ["R"] * len(genes)
+                    c.vectors = [[bits_of(v) for v in r.sample([0.5, 1.5, -2.25, 3.0, 7.0, 0.125, -1.0, 10.0], n)] for _ in range(2)]
+                    out.append(c)
+        return out
+
     def pytable_cases(self):
         """the documented semantic differences between the Python templates and the interpreter (NOT part of
         the property, which speaks of the C text): one input on which they differ and one on which they
